@@ -2,6 +2,7 @@ import RV.C04.Model
 import RV.C04.Spec
 import RV.C04.Safe
 import RV.C04.Analysis
+import RV.C04.Translate
 import RV.Base.Proto
 /-
   C04 driver.  One request per line, one answer per line.
@@ -282,6 +283,63 @@ def showResult {n : Nat} : Result n → String
     "graph " ++ " | ".intercalate (sortStrs (dedup (ts.map fun t =>
       showTerm t.1 ++ " " ++ showTerm t.2.1 ++ " " ++ showTerm t.2.2)))
 
+/-! canonical text of an algebra tree (BGPs as sorted bags of triple patterns, variable sets sorted): what the Lean model of
+    rdflib's translation produces, compared by the harness with rdflib's own tree printed the same way -/
+
+def showPos : Pos → String
+  | .var v => s!"?{v}"
+  | .const t => showTerm t
+
+def showOp : CmpOp → String
+  | .eq => "eq" | .ne => "ne" | .lt => "lt" | .gt => "gt" | .le => "le" | .ge => "ge"
+
+def showVars (l : List Nat) : String := "(vars" ++ String.join ((canonSet l).map fun k => s!" {k}") ++ ")"
+
+def showOVars : Option (List Nat) → String
+  | none => "none"
+  | some l => showVars l
+
+def showCell : Option Term → String
+  | none => "U"
+  | some t => showTerm t
+
+mutual
+def showExpr : Expr → String
+  | .var v => s!"(var {v})"
+  | .const t => s!"(const {showTerm t})"
+  | .cmp op a b => s!"(cmp {showOp op} {showExpr a} {showExpr b})"
+  | .and a b => s!"(and {showExpr a} {showExpr b})"
+  | .or a b => s!"(or {showExpr a} {showExpr b})"
+  | .not a => s!"(not {showExpr a})"
+  | .bound v => s!"(bound {v})"
+  | .exists neg p => (if neg then "(nexists " else "(exists ") ++ showAlg p ++ ")"
+def showAlg : Alg → String
+  | .bgp tps =>
+    "(bgp" ++ String.join ((sortStrs (tps.map fun tp => s!"{showPos tp.s} {showPos tp.p} {showPos tp.o}")).map (" " ++ ·)) ++ ")"
+  | .join l a b => s!"(join {if l then 1 else 0} {showAlg a} {showAlg b})"
+  | .leftJoin a b e p1 p2 => s!"(leftjoin {showAlg a} {showAlg b} {showExpr e} {showOVars p1} {showOVars p2})"
+  | .filter e p vars noIso => s!"(filter {showExpr e} {showAlg p} {showVars vars} {if noIso then 1 else 0})"
+  | .union a b => s!"(union {showAlg a} {showAlg b})"
+  | .minus a b p1 p2 => s!"(minus {showAlg a} {showAlg b} {showOVars p1} {showOVars p2})"
+  | .extend p v e vars => s!"(extend {showAlg p} {v} {showExpr e} {showVars vars})"
+  | .graph g p => s!"(graph {showPos g} {showAlg p})"
+  | .values vars rows =>
+    if rows.isEmpty then "(values)" else
+      "(values (vars" ++ String.join (vars.map fun k => s!" {k}") ++ ")" ++
+        String.join (rows.map fun r => " (row" ++ String.join (r.map fun c => " " ++ showCell c) ++ ")") ++ ")"
+  | .project p pv => s!"(project {showAlg p} {showVars pv})"
+end
+
+def showTPos : TPos → String
+  | .var v => s!"?{v}"
+  | .const t => showTerm t
+  | .blank l => s!"f{l}"
+
+def showQuery : Query → String
+  | .select pv p => s!"(select {showVars pv} {showAlg p})"
+  | .ask pv p => s!"(ask {showVars pv} {showAlg p})"
+  | .construct _ pv p => s!"(construct {showVars pv} {showAlg p})"   -- the template is not part of the pattern's translation
+
 def step (D : Dataset) : List String → Dataset × String
   | "ds" :: rest =>
     match (parseSX (tokenize (" ".intercalate rest))).bind dataset? with
@@ -310,6 +368,12 @@ def step (D : Dataset) : List String → Dataset × String
     match nn.toNat?, (parseSX (tokenize (" ".intercalate rest))).bind query? with
     | some n, some q => (D, showResult (Model.evalQuery (n := n) (fun k => Term.fresh k 0) D q.annotate))
     | _, _ => (D, "bad-op")
+  -- rdflib's translation (translateGroupGraphPattern, simplify, analyse, _addVars) as modelled in Translate.lean, run on
+  -- the PARSED SYNTAX TREE; the harness compares with rdflib's own tree
+  | "translate" :: rest =>
+    match (parseSX (tokenize (" ".intercalate rest))).bind squery? with
+    | some q => (D, "tree " ++ showQuery (Translate.query q))
+    | none => (D, "bad-op")
   | "tr" :: rest =>
     match (parseSX (tokenize (" ".intercalate rest))).bind squery? with
     | some _ => (D, "ok")
